@@ -25,7 +25,7 @@ def corpus(tier, seed):
         for style in ('bench', 'verilog', 'lean'):
             items.append((('nl', nl.to_json(), style), 3))
         items.append((('nl', nl.to_json(), 'lean'), 17))
-    for j, nl in enumerate(netlist.g3_random(seed, 40 if tier == 'quick' else 400)):
+    for j, nl in enumerate((netlist.g3_random(seed, 40) if tier == 'quick' else netlist.g3_random(seed, 700) + netlist.g3_random(seed + 1000, 200, max_in=8, max_gates=24, max_dff=4))):
         items.append((('nl', nl.to_json(), ('bench', 'verilog', 'lean')[j % 3]), (3, 9, 8, 1)[j % 4]))
     for r in netlist.G4: items.append((r, 3))
     return [(it[0], it[1], m) for it in items for m in (4, 8)]
@@ -178,7 +178,7 @@ def run(tier, seed):
                        'xsound-final / xsound-initial (known result component = 2-valued simulation of ANY completion), known-in-known-out; one z3 query per instance over all of them',
         'functions_encoded': common.fn_sha(LogicSim.c_prop, LogicSim.s_to_c, LogicSim.c_to_s, logic.bp4v_and, logic.bp4v_or, logic.bp4v_xor, logic.bp4v_not,
                                            logic.bp8v_and, logic.bp8v_or, logic.bp8v_xor, logic.bp8v_not),
-        'bounds': {'m': [4, 8], 'sims': [1, 3, 8, 9, 17], 'g3_random_circuits': 40 if tier == 'quick' else 400},
+        'bounds': {'m': [4, 8], 'sims': [1, 3, 8, 9, 17], 'g3_random_circuits': 40 if tier == 'quick' else 900},
         'exhaustive': False,
         'summary': f'{rep.counts["circuits"]} instances, {rep.counts["obligations"]} obligations, {rep.counts["discharged"]} discharged',
     }
